@@ -68,7 +68,18 @@ func (ex *Exec) beforeCall(s *State, instr ssa.Instruction, c *ssa.CallCommon, a
 	}
 	s.CurArgs = sv
 	s.CurRet = nil
-	ex.runGhost(s, ex.siteName(instr, calleeName(c)), "before", nil)
+	site := ex.siteName(instr, calleeName(c))
+	ex.runGhost(s, site, "before", nil)
+	if ex.con.StopAt != "" && ex.con.StopAt == site && !ex.dry {
+		// prefix verification: the path ends here (what follows is covered by
+		// the `flows` obligations on the SSA)
+		regs := map[string]ssa.Value{}
+		for n, nv := range fr.Names {
+			regs[n] = nv.Reg
+		}
+		ex.stopRegs = append(ex.stopRegs, regs)
+		s.Dead = true
+	}
 }
 
 // siteName: stable call-site name "<calleeShort>.<n>" where n counts the
@@ -120,6 +131,9 @@ func (ex *Exec) doCall(s *State, instr ssa.Instruction, c *ssa.CallCommon, res s
 		args = ex.callArgs(s, c)
 	}
 	ex.beforeCall(s, instr, c, args)
+	if s.Dead {
+		return nil // the contract's stop site
+	}
 	if c.IsInvoke() {
 		return ex.doInvoke(s, instr, c, res, args, stay)
 	}
@@ -193,6 +207,24 @@ func (ex *Exec) callFunc(s *State, instr ssa.Instruction, f *ssa.Function, bindi
 			nf.Regs[fv] = bindings[i]
 		}
 		s.Stack = append(s.Stack, nf)
+		return nil
+	}
+	if ex.con != nil && ex.con.OpaqueCalls {
+		// `opaquecalls`: set-up code of the command-line tools (certificates,
+		// loggers, signal handling, privileges, address resolution, the gateway
+		// or client it finally starts). Such a call yields unconstrained results
+		// and is assumed not to change what the contract speaks about.
+		ex.usedAssume["A-OPAQUECALL: in "+ex.key+" the call of "+key+" yields unconstrained results and does not modify the objects the contract speaks about"] = true
+		sig := f.Signature
+		var rv Val
+		switch sig.Results().Len() {
+		case 0:
+		case 1:
+			rv = ex.freshVal(s, sig.Results().At(0).Type(), "oc")
+		default:
+			rv = ex.freshVal(s, sig.Results(), "oc")
+		}
+		ex.finishCall(s, instr, res, stay, rv)
 		return nil
 	}
 	if !isRepoFn(f) {
